@@ -284,7 +284,77 @@ def r06_7(chk):
     chk.floor("R06.7", 2, "shared block helper + FASTA writer")
 
 
+def _squeezes(e):
+    """does this expression remove ALL white space of its operand (not just at the ends)?"""
+    if isinstance(e, ast.Call) and isinstance(e.func, ast.Attribute):
+        f = e.func
+        # "".join(x.split())
+        if f.attr == "join" and isinstance(f.value, ast.Constant) and isinstance(f.value.value, str) and f.value.value.strip() == f.value.value and len(e.args) == 1:
+            a = e.args[0]
+            if isinstance(a, ast.Call) and isinstance(a.func, ast.Attribute) and a.func.attr == "split" and not a.args and not a.keywords:
+                return True
+        # x.replace(" ", "")
+        if f.attr == "replace" and len(e.args) >= 2 and all(isinstance(a, ast.Constant) and isinstance(a.value, str) for a in e.args[:2]) and e.args[0].value.isspace() and e.args[1].value == "":
+            return True
+        # x.translate(...) : unknown table, not claimed
+    if isinstance(e, ast.Call) and (call_name(e) or "").endswith("re.sub") and len(e.args) >= 2 and isinstance(e.args[0], ast.Constant) and isinstance(e.args[1], ast.Constant) and e.args[1].value == "" and re.search(r"\\s| ", str(e.args[0].value)):
+        return True
+    return False
+
+
+NAME_PARSERS = [("parse/paml.py", "PamlParser"), ("parse/phylip.py", "MinimalPhylipParser"), ("parse/clustal.py", "ClustalParser")]
+
+
+def r06_8(chk):
+    chk.rule("R06.8", "labels are preserved verbatim by the block-format parsers (PAML, PHYLIP, Clustal): the first element of every yielded record does not derive -- along reaching definitions, through list/dict elements and the module's helper functions -- from an expression that removes all white space of a line (`''.join(x.split())`, `x.replace(' ', '')`, re.sub of \\s); only the sequence part may be squeezed")
+    from ..slicing import Slicer
+
+    for rel, fname in NAME_PARSERS:
+        m = chk.repo.module(rel)
+        fn = m.func(fname)
+        sl = Slicer(m)
+        yields = [y for y in walk_no_nested(fn) if isinstance(y, ast.Yield) and isinstance(y.value, ast.Tuple) and len(y.value.elts) == 2]
+        if not yields:
+            raise AnalysisError(f"{rel}::{fname}: no `yield name, seq` found")
+        seq_squeezed = False
+        for y in yields:
+            node = sl.node_of(fn, y)
+            hits = []
+
+            def visit(e, f, hits=hits):
+                if _squeezes(e):
+                    hits.append((e, f))
+
+            sl.origins(fn, node, y.value.elts[0], visit)
+            k = key(m, fname, f"name of `yield {norm(y.value)[:50]}` verbatim")
+            if hits:
+                e, f = hits[0]
+                chk.violation("R06.8", k, m.loc(e), f"the record name derives from `{norm(e)[:70]}` (in {f.name}), which removes every blank inside the line: a name such as 'Homo sapiens' is read back as 'Homosapiens', and names differing only in blanks collide")
+            else:
+                chk.ok("R06.8", k, m.loc(y), "the name derives only from edge-trimmed / sliced line text")
+            shits = []
+            sl.origins(fn, node, y.value.elts[1], lambda e, f, shits=shits: shits.append(e) if _squeezes(e) else None)
+            seq_squeezed = seq_squeezed or bool(shits)
+        if sl.unresolved:
+            chk.unresolved("R06.8", key(m, fname, "slice"), m.loc(fn), "; ".join(sl.unresolved[:3]))
+    # probe: the slicer must see a squeeze that reaches the name through a reassigned loop variable
+    probe_src = "def P(data):\n    name = None\n    for line in data:\n        line = ''.join(line.split())\n        if name is None:\n            name = line\n            continue\n        yield name, line\n        name = None\n"
+    pm = ast.parse(probe_src).body[0]
+
+    class _M:
+        functions = {}
+
+    ps = Slicer(_M)
+    py = [y for y in ast.walk(pm) if isinstance(y, ast.Yield)][0]
+    got = []
+    ps.origins(pm, ps.node_of(pm, py), py.value.elts[0], lambda e, f: got.append(e) if _squeezes(e) else None)
+    if not got:
+        raise AnalysisError("R06.8 self-probe failed: squeeze not traced to the yielded name")
+    chk.floor("R06.8", 4, "yield sites of three parsers")
+
+
 def run(chk):
+    r06_8(chk)
     r06_1(chk)
     r06_6(chk)
     r06_7(chk)
